@@ -23,6 +23,7 @@ use std::hash::{Hash, Hasher};
 use std::task::{Context, Poll, RawWaker, RawWakerVTable, Waker};
 
 const ROUND_TRIP_MS: u64 = 5_000;
+const STALL_MS: u64 = 3_000;
 
 #[derive(Clone, Copy, Debug, PartialEq)]
 enum Ev {
@@ -59,9 +60,12 @@ enum Ev {
     /// PINGRESP arrives 1 ms before / exactly at the round-trip bound
     PingRespJustBeforeDeadline,
     PingRespAtDeadline,
+    /// the pending timer fires on time and the transport then stalls the next write (typically the
+    /// PINGREQ) for three seconds before accepting it
+    TimerExactThenWriteStalls,
 }
 
-const EVENTS: [Ev; 18] = [
+const EVENTS: [Ev; 19] = [
     Ev::TimerExact,
     Ev::TimerLate,
     Ev::Inbound,
@@ -80,6 +84,7 @@ const EVENTS: [Ev; 18] = [
     Ev::ToPingDeadlinePlus1,
     Ev::PingRespJustBeforeDeadline,
     Ev::PingRespAtDeadline,
+    Ev::TimerExactThenWriteStalls,
 ];
 
 pub struct C10 {
@@ -111,6 +116,10 @@ struct Mon {
     pings: u32,
     /// a PINGRESP for the outstanding ping has been put on the wire towards the client
     resp_pushed: bool,
+    /// a write stalled since the writes were last accounted for
+    stalled: bool,
+    /// the write of the outstanding PINGREQ had stalled
+    ping_stalled: bool,
 }
 
 impl C10 {
@@ -149,6 +158,7 @@ impl C10 {
                         // (a second PINGREQ while one is unanswered is legal MQTT and not forbidden by the property)
                         if mon.ping_at.is_none() {
                             // the round-trip bound runs from the oldest unanswered PINGREQ
+                            mon.ping_stalled = mon.stalled;
                             mon.ping_at = Some(now);
                             mon.coincidence = false;
                             mon.resp_pushed = false;
@@ -161,6 +171,7 @@ impl C10 {
                     }
                     mon.last_tx = now;
                     mon.late_ms = 0;
+                    mon.stalled = false;
                 }
                 Err(_) => {
                     viol.push(("C10:wire:undecodable".into(), format!("client wrote {}", mr::hex(&w[off..]))));
@@ -228,7 +239,17 @@ impl Model for C10 {
                                     break;
                                 }
                                 Poll::Pending => {
+                                    if bench.sh.borrow().pending == Pend::Chosen {
+                                        // the write stalled by TimerExactThenWriteStalls: three seconds pass
+                                        clock::set(clock::now() + STALL_MS * clock::TICKS_PER_MS);
+                                        // the keep-alive cadence is promised on a transport that accepts writes
+                                        mon.late_ms += STALL_MS;
+                                        mon.stalled = true;
+                                        log!("the transport accepts the write after {} ms, at {} ms", STALL_MS, now_ms());
+                                        continue;
+                                    }
                                     // blocked: nothing to read; a timer may be registered
+                                    bench.sh.borrow_mut().stall_next_write = false;
                                     if bench.sh.borrow().pending != Pend::ReadEmpty {
                                         panic!("machinery: poll pending without a blocked read");
                                     }
@@ -262,6 +283,14 @@ impl Model for C10 {
                                     let wake_ms = wake.map(|t| t / clock::TICKS_PER_MS);
                                     let mut na = false;
                                     match ev {
+                                        Ev::TimerExactThenWriteStalls => match wake {
+                                            Some(t) if t > clock::now() => {
+                                                clock::set(t);
+                                                bench.sh.borrow_mut().stall_next_write = true;
+                                                log!("{:?}: clock -> {} ms, next write will stall", ev, now_ms());
+                                            }
+                                            _ => na = true,
+                                        },
                                         Ev::TimerExact | Ev::TimerLate => match wake {
                                             Some(t) if t > clock::now() => {
                                                 let late = if ev == Ev::TimerLate { 1 } else { 0 };
@@ -397,6 +426,7 @@ impl Model for C10 {
                         }
                         res
                     };
+                    bench.sh.borrow_mut().stall_next_write = false;
                     match after {
                         After::Again => {
                             self.account_writes(bench, id, &mut seen, &mut mon, &mut viol, true);
@@ -420,7 +450,8 @@ impl Model for C10 {
                                 match mon.ping_at {
                                     Some(p) => {
                                         if now < p + ROUND_TRIP_MS {
-                                            viol.push(("C10:G2-early-disconnect:before-round-trip-bound".into(), format!("PINGREQ completed at {} ms, disconnected already at {} ms (bound {} ms)", p, now, ROUND_TRIP_MS)));
+                                            let ctx = if mon.ping_stalled { "bound-counted-from-before-a-stalled-pingreq-write" } else { "before-round-trip-bound" };
+                                            viol.push((format!("C10:G2-early-disconnect:{}", ctx), format!("PINGREQ completed at {} ms, disconnected already at {} ms (bound {} ms)", p, now, ROUND_TRIP_MS)));
                                         }
                                     }
                                     None => {
@@ -470,6 +501,7 @@ impl Model for C10 {
                 mon.ping_at.map(|p| now - p).hash(&mut h);
                 mon.coincidence.hash(&mut h);
                 mon.resp_pushed.hash(&mut h);
+                mon.ping_stalled.hash(&mut h);
                 mon.late_ms.hash(&mut h);
                 mon.qos1_outstanding.is_some().hash(&mut h);
                 mon.dead.hash(&mut h);
